@@ -260,7 +260,8 @@ let handle_smtp (kind : string) (ins : string list) (outs : string list) : bool 
                     List.iter (fun (it, r) ->
                       (match it with
                        | L (Mail (_, Deny (code, text))) | L (Rcpt (_, Deny (code, text))) when List.length r = 1 ->
-                           let want = Printf.sprintf "%03d %s" (int_of_z code) (raw_of_str text) in
+                           (* the extracted Hooks.deny_line: its format is pinned to the source (Proofs/HooksDenyLine.v) *)
+                           let want = raw_of_str (deny_line code text) in
                            (match List.nth_opt lines !pos with
                             | Some l when l = want -> ()
                             | Some _ when int_of_z (first_code r) <> int_of_z code -> ()   (* refused earlier for another reason *)
